@@ -14,6 +14,24 @@ Open Scope Z_scope.
 Theorem C16_checker_exact : forall g q r, route_check g q r = true <-> route_valid g q r.
 Proof. exact checker_exact. Qed.
 
+(** The fee formula the checker uses — regenerated from router.rs on every run — is the BOLT 7
+    formula [base + amount * proportional_millionths / 1 000 000] ([None] exactly on u64 overflow):
+    an edit of the Rust formula breaks this theorem instead of silently changing the specification. *)
+Theorem C16_compute_fees_is_bolt7 : forall a f,
+  0 <= a -> 0 <= rf_base_msat f -> 0 <= rf_proportional_millionths f ->
+  compute_fees a f =
+  (if (a * rf_proportional_millionths f <? 2 ^ 64) &&
+      (rf_base_msat f + a * rf_proportional_millionths f / 1000000 <? 2 ^ 64)
+   then Some (rf_base_msat f + a * rf_proportional_millionths f / 1000000) else None).
+Proof. exact compute_fees_bolt7. Qed.
+
+Theorem C16_compute_fees_saturating_is_bolt7 : forall a f,
+  compute_fees_saturating a f =
+  Z.min (2 ^ 64 - 1)
+    ((if a * rf_proportional_millionths f <? 2 ^ 64
+      then a * rf_proportional_millionths f / 1000000 else 2 ^ 64 - 1) + rf_base_msat f).
+Proof. exact compute_fees_saturating_bolt7. Qed.
+
 (** Whatever the witness search returns is, on its own, a valid route (used for the completeness
     clause: the router reports failure although such a path exists). *)
 Theorem C16_witness_sound : forall g q fc p,
